@@ -1095,7 +1095,7 @@ fn channels() -> Vec<Channel> {
         Channel { name: "print.exp_reformat", tol: Tol::Exact, run: run_exp_reformat, oracle: Some(oracle_exp_reformat),
             modelled: true, rust_fn: "info_print::_exp_str_reformat", lean: "Print.expStrReformat / C20.exp_format" },
         Channel { name: "print.conedims", tol: Tol::Exact, run: run_conedims, oracle: Some(oracle_conedims),
-            modelled: true, rust_fn: "info_print::_print_conedims_by_type", lean: "Print.printConedimsByType / C20.header_counts" },
+            modelled: true, rust_fn: "info_print::_print_conedims_by_type (the printed count is CompositeCone::get_type_count of a real CompositeCone: both the present and the absent-tag branch)", lean: "Print.printConedimsByType ((nvarsOf cones tag).length) / C20.header_counts" },
         Channel { name: "print.status_line", tol: Tol::Exact, run: run_status_line, oracle: None,
             modelled: true, rust_fn: "DefaultInfo::print_status", lean: "Print.statusLine" },
         Channel { name: "print.footer", tol: Tol::Exact, run: run_footer, oracle: None,
